@@ -11,7 +11,7 @@ use std::panic::{catch_unwind, AssertUnwindSafe};
 use std::sync::Arc;
 
 fn coq_pred(p: &Predicate) -> String {
-    format!("(Build_predicate {} {})", list_of(&p.nodes, |n| format!("(Build_node {} {})", n.edge_start, blist(&n.program_address.0))), zlist(p.edges.iter().map(|e| *e as i64)))
+    format!("(Build_predicate {} {})", list_of(&p.nodes, |n| format!("(Build_node {} {})", n.edge_start, blist(&n.program_address.0))), if p.edges.len() >= 24 && p.edges.iter().all(|e| *e == p.edges[0]) { format!("(repeat {} {})", p.edges[0], p.edges.len()) } else { zlist(p.edges.iter().map(|e| *e as i64)) })
 }
 fn rand_pred(rng: &mut Rng) -> Predicate {
     let n = rng.range(0, 3) as usize; let e = rng.range(0, 3) as usize;
@@ -38,7 +38,15 @@ pub fn run(a: &Args) {
         let mut skb = [0u8; 32]; for b in skb.iter_mut() { *b = rng.next() as u8; } skb[0] |= 1; skb[0] &= 0x7F;
         let sk = SecretKey::from_slice(&skb).unwrap();
         let signer = PublicKey::from_secret_key(&secp, &sk);
-        let preds: Vec<Predicate> = (0..rng.range(0, 4)).map(|_| rand_pred(&mut rng)).collect();
+        let mut preds: Vec<Predicate> = (0..rng.range(0, 4)).map(|_| rand_pred(&mut rng)).collect();
+        // now and then a predicate exactly at (or just below) the documented size limits: 1000 edges or 1000 nodes
+        let mut at_limit = false;
+        if !preds.is_empty() && rng.chance(1, 8) {
+            at_limit = true;
+            let addr = ContentAddress({ let mut a = [0u8; 32]; for b in a.iter_mut() { *b = rng.next() as u8; } a });
+            preds[0] = if rng.chance(2, 3) { Predicate { nodes: vec![Node { edge_start: 0, program_address: addr.clone() }, Node { edge_start: u16::MAX, program_address: addr }], edges: vec![1; *rng.pick(&[1000usize, 1000, 999])] } }
+                       else { Predicate { nodes: vec![Node { edge_start: u16::MAX, program_address: addr }; *rng.pick(&[1000usize, 999])], edges: vec![] } };
+        }
         let mut salt = [0u8; 32]; if rng.chance(3, 4) { for b in salt.iter_mut() { *b = rng.next() as u8; } }
         let contract = Contract { predicates: preds.clone(), salt };
         let signed = sign::contract::sign(contract.clone(), &sk);
@@ -51,10 +59,13 @@ pub fn run(a: &Args) {
         let mut tampered: Vec<Vec<u8>> = vec![];
         { let mut c = contract.clone(); c.salt[rng.below(32) as usize] ^= 1 << rng.below(8); tampered.push(rec(&c, &sig)); }
         if !preds.is_empty() {
-            let k = rng.below(preds.len() as u64) as usize;
+            let k = if at_limit { 0 } else { rng.below(preds.len() as u64) as usize };
             { let mut c = contract.clone(); c.predicates[k].edges.push(7); tampered.push(rec(&c, &sig)); }
             { let mut c = contract.clone(); c.predicates[k].nodes.push(Node { edge_start: 0, program_address: ContentAddress([9; 32]) }); tampered.push(rec(&c, &sig)); }
             { let mut c = contract.clone(); c.predicates.remove(k); tampered.push(rec(&c, &sig)); }
+            // same sizes, one edge rewired / one edge_start changed
+            if !contract.predicates[k].edges.is_empty() { let mut c = contract.clone(); let j = rng.below(c.predicates[k].edges.len() as u64) as usize; c.predicates[k].edges[j] ^= 1; tampered.push(rec(&c, &sig)); }
+            if !contract.predicates[k].nodes.is_empty() { let mut c = contract.clone(); let j = rng.below(c.predicates[k].nodes.len() as u64) as usize; c.predicates[k].nodes[j].edge_start ^= 2; tampered.push(rec(&c, &sig)); }
             if let Some(n) = contract.predicates[k].nodes.first() { let mut c = contract.clone(); let mut a2 = n.program_address.0; a2[5] ^= 4; c.predicates[k].nodes[0].program_address = ContentAddress(a2); tampered.push(rec(&c, &sig)); }
         }
         { let mut c = contract.clone(); c.predicates.push(Predicate::default()); tampered.push(rec(&c, &sig)); }
@@ -79,9 +90,26 @@ pub fn run(a: &Args) {
         let mut vm = Vm::default();
         let r = catch_unwind(AssertUnwindSafe(|| vm.exec_ops(&ops, Access::new(Arc::new(vec![sol]), 0), &crate::e_graph::MemState::default2(), &|_: &essential_asm::Op| 1, GasLimit::UNLIMITED)));
         let vm_stack: Vec<Word> = match r { Ok(Ok(_)) => vm.stack.iter().copied().collect(), _ => vec![-1] };
-        let lit = format!("Build_sign_case {} {} {} {} {} {} {} {} {} {} {} {} {} {}", list_of(&preds, coq_pred), blist(&salt), blist(&addr.0), blist(&signer.serialize()),
+        // the byte forms of the encodings and the hash / message level API on the same digest and key
+        let enc_pk_b = sign::encode::public_key_as_bytes(&signer);
+        let enc_sig_b = sign::encode::signature_as_bytes(&rsig);
+        let msg = secp256k1::Message::from_digest(addr.0);
+        let other = PublicKey::from_secret_key(&secp, &SecretKey::from_slice(&[0x33; 32]).unwrap());
+        let mut other_digest = addr.0; other_digest[rng.below(32) as usize] ^= 1 << rng.below(8);
+        let api: Vec<bool> = vec![
+            catch_unwind(AssertUnwindSafe(|| sign::sign_hash(addr.0, &sk) == sig)).unwrap_or(false),
+            catch_unwind(AssertUnwindSafe(|| sign::sign_message(&msg, &sk) == sig)).unwrap_or(false),
+            catch_unwind(AssertUnwindSafe(|| sign::recover_hash(addr.0, &sig).map(|k| k == signer).unwrap_or(false))).unwrap_or(false),
+            catch_unwind(AssertUnwindSafe(|| sign::recover_from_message(&msg, &sig).map(|k| k == signer).unwrap_or(false))).unwrap_or(false),
+            catch_unwind(AssertUnwindSafe(|| sign::verify_hash(addr.0, &sig).is_ok())).unwrap_or(false),
+            catch_unwind(AssertUnwindSafe(|| sign::verify_message(&msg, &sig.0, &signer).is_ok())).unwrap_or(false),
+            catch_unwind(AssertUnwindSafe(|| sign::verify_message(&msg, &sig.0, &other).is_err())).unwrap_or(false),
+            catch_unwind(AssertUnwindSafe(|| sign::recover_hash(other_digest, &sig).map(|k| k != signer).unwrap_or(true))).unwrap_or(false),
+        ];
+        let lit = format!("Build_sign_case {} {} {} {} {} {} {} {} {} {} {} {} {} {} {} {} [{}]", list_of(&preds, coq_pred), blist(&salt), blist(&addr.0), blist(&signer.serialize()),
             blist(&sig.0), sig.1, blist(&recovered), coq_bool(verify), list_of(&perm_rec, |r| blist(r)), list_of(&tampered, |r| blist(r)),
-            list_of(&bad, |e| format!("({}, {})", e.0, e.1)), zlist(enc_pk.iter().copied()), zlist(enc_sig.iter().copied()), zlist(vm_stack.iter().copied()));
+            list_of(&bad, |e| format!("({}, {})", e.0, e.1)), zlist(enc_pk.iter().copied()), zlist(enc_sig.iter().copied()), zlist(vm_stack.iter().copied()),
+            blist(&enc_pk_b), blist(&enc_sig_b), api.iter().map(|b| coq_bool(*b)).collect::<Vec<_>>().join("; "));
         out.push(i, lit, json!({"predicates": preds.len(), "verify": verify, "tamperings": tampered.len()}), true);
         out.bump("signed_contracts");
     }
